@@ -15,6 +15,8 @@ CLAIM = (
     "order; (3) quantifiers are preserved: a quantified character or set is wrapped in a Group that carries term.quantifier, an "
     "unquantified one yields terms without quantifier; (4) visit_concatenation rewrites both character-bearing term kinds and recurses "
     "into every new term; (5) fix_pattern_for_utf16 runs parse -> fix -> render in that order."
+    " SKIPS: the loops of the functions in scope have no more `continue`, `break` or in-loop `return` statements than the reference "
+    "read on the unchanged tree (baselines/skips.json): a new skip means elements that were handled are no longer handled."
 )
 NOTE = (
     "Oracle: the UTF-16 encoding form (Unicode standard, section 3.9) and elementary set arithmetic on the (high, low) grid. "
@@ -108,6 +110,13 @@ def run(ctx) -> None:
     else:
         ctx.fail("VISIT", vc, vc.node, "the rewritten terms are not stored back / not visited recursively (nested groups keep astral characters)", construct="visit_concatenation recursion")
     seq.check_sequence(ctx, p.func("jsonschema.main:fix_pattern_for_utf16"), "SEQ", ["parse", "fix_for_utf16_regex_in_place", "render"], lambda n: n.kind == "return")
+    ctx.rule("SKIPS", "the loops of the functions in scope have no more continue/break/return-in-loop statements than the reference read on the unchanged tree", floor=2)
+    from ..rules import skips as _skips
+    _base = _skips.load_baseline()
+    for _m in ctx.p.modules.values():
+        if _m.name == "aas_core_codegen.parse.retree._fix":
+            for _f in _m.functions.values():
+                _skips.check_skips(ctx, _f, "SKIPS", _base)
 
 
 def _branch_pieces(stmts: List[ast.stmt], conds: Tuple[str, ...], out: List[Tuple[Tuple[str, ...], str, Dict[str, Any]]]) -> None:
